@@ -283,7 +283,7 @@ def model_obs(case, resps):
   r = resps[0]
   left = r['left']
   others = [b for b in left if b[0] != MAIN]
-  main_idle = any(b[0] == MAIN and b[1].endswith('mnWake') for b in left)
+  main_idle = any(b[0] == MAIN and b[1] == 'wake shut' for b in left)
   if not r['enabled']:
     outcome = 'done' if (not others and (main_idle or r['main_done'])) else 'deadlock'
   else:
